@@ -831,6 +831,20 @@ def accept_frame(facts):
             if o[0] == "some":
                 return o[1]
             return None
+        if e[0] == "case":
+            d = ev(e[1], hb, sref)
+            if d is None or d[0] != "v" or not d[1].isdigit():
+                return None
+            for lab, v in e[2]:
+                labs = lab if isinstance(lab, tuple) else (lab,)
+                if int(d[1]) in labs:
+                    return ev(v, hb, sref)
+            return None
+        if e[0] == "proj" and tuple(e[2])[:2] == ("@Some", ".0") and len(e[2]) == 2:
+            o = ev(e[1], hb, sref)
+            if o and o[0] == "some":
+                return o[1]
+            return None
         if e[0] == "agg" and e[2] == "Some" and len(e[3]) == 1:
             v = ev(e[3][0], hb, sref)
             return ("some", v) if v is not None else None
